@@ -124,13 +124,12 @@ _TEXT_KEEPING = ("lower", "upper", "strip", "lstrip", "rstrip", "casefold")
 
 def _own(fnode):
     """Nodes of a function definition without the bodies of nested definitions."""
-    todo = list(fnode.body)
+    skip = (ast.FunctionDef, ast.AsyncFunctionDef, ast.Lambda, ast.ClassDef)
+    todo = [n for n in fnode.body if not isinstance(n, skip)]
     while todo:
         n = todo.pop()
         yield n
-        for c in ast.iter_child_nodes(n):
-            if not isinstance(c, (ast.FunctionDef, ast.AsyncFunctionDef, ast.Lambda, ast.ClassDef)):
-                todo.append(c)
+        todo.extend(c for c in ast.iter_child_nodes(n) if not isinstance(c, skip))
 
 
 def r8_exponent(rep, ctx):
@@ -146,6 +145,33 @@ def r8_exponent(rep, ctx):
     m = ctx.model
     fn = m.method("FractionValue", "CreateFromFloat")
     defs = [fn.node] + [n for n in ast.walk(fn.node) if isinstance(n, (ast.FunctionDef, ast.AsyncFunctionDef)) and n is not fn.node]
+    # helpers hoisted out of the method: module-level functions and FractionValue methods of the same module that
+    # CreateFromFloat (transitively) calls by name
+    tree = m.trees[fn.path][0]
+    toplevel = {n.name: n for n in tree.body if isinstance(n, (ast.FunctionDef, ast.AsyncFunctionDef))}
+    methods = {}
+    for c in tree.body:
+        if isinstance(c, ast.ClassDef) and c.name == "FractionValue":
+            methods = {n.name: n for n in c.body if isinstance(n, (ast.FunctionDef, ast.AsyncFunctionDef))}
+    todo = list(defs)
+    while todo:
+        d = todo.pop()
+        for n in _own(d):
+            if not isinstance(n, ast.Call):
+                continue
+            callee = None
+            if isinstance(n.func, ast.Name):
+                callee = toplevel.get(n.func.id)
+                if callee is None:
+                    # imported from another module of the package: the one module-level function of that name
+                    cands = [f for f in m.funcs.values() if f.name == n.func.id and f.cls is None and f.parent is None]
+                    if len(cands) == 1:
+                        callee = cands[0].node
+            elif isinstance(n.func, ast.Attribute) and isinstance(n.func.value, ast.Name) and n.func.value.id in ("cls", "self", "FractionValue"):
+                callee = methods.get(n.func.attr)
+            if callee is not None and all(callee is not x for x in defs):
+                defs.append(callee)
+                todo.append(callee)
     sites = 0
     for d in defs:
         nodes = list(_own(d))
